@@ -489,3 +489,42 @@ def rule_c04_r4(model: Model) -> RuleResult:
                                    "an exception raised by __post_init__ escapes the conversion instead of becoming a ConvertError")
                         r.sample({'function': f.qualname, 'call': c.func.attr})
     return r
+
+
+ABC_METHODS = {'items', 'keys', 'values', 'get', 'index', 'count', '__getitem__', '__len__', '__iter__', '__contains__', '__reversed__'}
+
+
+def rule_c04_r5(model: Model) -> RuleResult:
+    """The input is used through the abstract Mapping / Sequence protocol only: any collections.abc.Mapping is interchange data, and
+    a method such as .copy() that only dict has raises AttributeError on the others."""
+    r = RuleResult('C04-R5', 'the passes call only Mapping / Sequence protocol methods on the raw input (copies are made with dict() / list())',
+                   floor=8)
+    zone = conversion_zone(model)
+    for cls in family(model):
+        for f in zone[cls.qualname]:
+            if f.name == 'into_data' or not isinstance(f.node, ast.FunctionDef):
+                continue
+            cfg = cfg_of(model, f)
+            nz = Normalizer(model, f, cfg)
+            from .mutation import Freshness
+            fresh = Freshness(model, f)
+            for n in cfg.live_nodes():
+                for root in node_exprs(n):
+                    for sub, bound in walk_with_bindings(root, nz, n):
+                        if isinstance(sub, ast.Call) and isinstance(sub.func, ast.Attribute):
+                            recv = nz.expr(sub.func.value, n, bound)
+                            if recv != 'VAL':
+                                continue
+                            if fresh.classify(sub.func.value, n) == 'FRESH':
+                                continue      # a private copy (dict(val), list(val)): any method is fine
+                            r.instances += 1
+                            r.analysed.add(f.qualname)
+                            r.sample({'function': f.qualname, 'call': f"VAL.{sub.func.attr}()"})
+                            if sub.func.attr in ABC_METHODS:
+                                r.ok()
+                            else:
+                                r.fail(f.qualname, f"VAL.{sub.func.attr}()", f.loc(sub),
+                                       f"`{sub.func.attr}` is not part of the Mapping / Sequence protocol: interchange data of another mapping or "
+                                       f"sequence class (any collections.abc.Mapping, a ChainMap, a deque) makes the conversion raise AttributeError "
+                                       f"or see only part of the data")
+    return r
